@@ -44,11 +44,11 @@ def CmdCfg.ValidateGood (c : CmdCfg) : Prop :=
   c.keyStartOp = .lt ∧ c.keyEndOp = .ge ∧ c.uncheckedKinds = [] ∧ c.unknownRejected = true ∧
   c.epochBothFields = true
 
-instance (c : CmdCfg) : Decidable c.ValidateGood := by unfold CmdCfg.ValidateGood; exact inferInstance
+instance CmdCfg.decValidateGood (c : CmdCfg) : Decidable c.ValidateGood := by unfold CmdCfg.ValidateGood; exact inferInstance
 
 def CmdCfg.Good (c : CmdCfg) : Prop := c.ValidateGood ∧ c.proposeScanTrimmed = true
 
-instance (c : CmdCfg) : Decidable c.Good := by unfold CmdCfg.Good; exact inferInstance
+instance CmdCfg.decGood (c : CmdCfg) : Decidable c.Good := by unfold CmdCfg.Good; exact inferInstance
 
 def keyInRange (c : CmdCfg) (m : Meta) (k : Bytes) : Bool :=
   if k = [] then true
@@ -89,6 +89,6 @@ def scanOut (c : CmdCfg) (p : Path) (m : Meta) (applied : List Bytes) : List Byt
 def inRange (m : Meta) (k : Bytes) : Prop :=
   (m.start = [] ∨ Bytes.le m.start k = true) ∧ (m.end_ = [] ∨ Bytes.lt k m.end_ = true)
 
-instance (m : Meta) (k : Bytes) : Decidable (inRange m k) := by unfold inRange; exact inferInstance
+instance decInRange (m : Meta) (k : Bytes) : Decidable (inRange m k) := by unfold inRange; exact inferInstance
 
 end NoKV.Region
